@@ -44,7 +44,7 @@ RangeStart(i) == i - 1
 FinalT == [k |-> "final", part |-> 0]
 WriteT(i) == [k |-> "w", part |-> i]
 MetaC == [ cfg |-> [R |-> R, S |-> 1, RQ |-> RQ, SQ |-> 1000, IOQ |-> IOQ, io_chunk |-> 1,
-                    attempts |-> A, up_chunks |-> 10, down_chunks |-> W, chunk |-> 1,
+                    attempts |-> A, up_chunks |-> 10, down_chunks |-> W, chunk |-> 1, minp |-> 1, maxp |-> 1000000, maxn |-> 10000,
                     threshold |-> 1],
            xs |-> << [kind |-> "download", size |-> N, dstk |-> Dest, srck |-> "none",
                       hasOld |-> (HasOld /\ Dest = "path"), nsubs |-> 1, provide |-> ~NeedHead, faultFree |-> (MaxFaults = 0),
@@ -95,7 +95,8 @@ ReqInFlight == Cardinality({i \in Parts : gst[i] \in {"queued", "running"}})
 Init ==
     /\ status = "not-started" /\ exc = "none" /\ event = FALSE /\ cleanup = "none"
     /\ cllock = "" /\ cblock = "" /\ cbrun = FALSE
-    /\ temp = FALSE /\ fopen = FALSE /\ dest = (IF HasOld THEN "old" ELSE "absent") /\ wr = {}
+    /\ temp = FALSE /\ fopen = FALSE /\ wr = {}
+    /\ dest = (IF HasOld /\ Dest = "path" THEN "old" ELSE "absent")
     /\ gst = [i \in Parts |-> "unsub"] /\ rq = <<>> /\ rsem = RQ
     /\ ioq = <<>> /\ iosem = IOQ /\ ioinfl = 0 /\ iofut = 0
     /\ cnt = 0 /\ cntfin = FALSE
@@ -206,7 +207,8 @@ AnnEnd(th) ==
 \* [Call]
 UserCall ==
     /\ upc = "call"
-    /\ Emit2([e |-> "Call", x |-> 0, user |-> FALSE], EvSnap(dest, FALSE))
+    /\ IF Dest = "path" THEN Emit2([e |-> "Call", x |-> 0, user |-> FALSE], EvSnap(dest, FALSE))
+       ELSE Emit([e |-> "Call", x |-> 0, user |-> FALSE])
     /\ upc' = "submit"
     /\ UNCHANGED <<coord, event, cleanup, locks, fs, rex, iox, cc, win, dq, wk, iow, sb, cpc, ann, faults, seq>>
 \* [ExecSubmit submission]
